@@ -492,7 +492,7 @@ func c17ScaledContext(r *harness.Run, tier string) {
 // c17FamilyContext: context independence and repeatability over the control-flow program families: each program is
 // compiled twice alone (byte-identical), and next to two neighbour statements sets, before and after them.
 func c17FamilyContext(r *harness.Run, tier string) {
-	plans, swN := enginePlans(tier)
+	plans, swN := liftPlans(tier)
 	owned := regexp.MustCompile(`^(SX|SX_\d+)$`)
 	neighbours := []string{
 		"script SY {\n\tlock\n\tif (flag(NA)) {\n\t\tmsgbox(\"neighbour text\")\n\t}\n\tNeighbourLabel:\n\twhile (var(NB) < 3) {\n\t\tapplymovement(1, moves(nu nd))\n\t}\n}\n",
